@@ -2,6 +2,7 @@ import GscribModel.Props.MotionTie
 import GscribModel.Props.C01
 import GscribModel.Props.C02
 import GscribModel.Props.C07
+import GscribModel.Props.C06
 /-! # C01 and C02 for the translated source
 
 `MotionTie_run` (every history: running the translated source of the builder's commands is running the model) composed with the
@@ -231,3 +232,22 @@ theorem SourceTie_C05 (ops : List Op) (b : B) (hok : HistOk b ops) :
   refine ⟨?_, fun hn => ?_⟩
   · rw [← e1, ← a1, c1]
   · rw [← e2, ← a2, c2 hn]
+
+/-! ## C06 read off the translated source -/
+open GscribModel.MotionTie in
+/-- **C06 for the translated source**: from every builder state and under every bounds configuration (`b` is arbitrary) the
+    translated `emergency_halt()` succeeds, writes `M05`, `M09`, the comment, then `M00` / `M30` in this order, and leaves a
+    state object that reports tool and coolant inactive. -/
+theorem SourceTie_C06 (b : B) (reset : Bool) (h : Rat) :
+    let g := GCodeBuilder.emergency_halt (absB b) reset h
+    g.2 = none ∧
+    g.1.out.map conv = [(["M05"], {}, []), (["M09"], {}, []), ([], {}, []), ([if reset then "M30" else "M00"], {}, [])] ∧
+    ∃ b' : B, g.1.state = absG b' ∧ b'.toolActive = false ∧ b'.coolActive = false := by
+  have ag := MotionTie_emergency_halt b reset h
+  obtain ⟨c1, c2, c3, c4⟩ := C06_emergency b reset
+  obtain ⟨g1, _, g3⟩ := agrees_ok _ _ ag c1
+  refine ⟨g1, ?_, (step b (.ehalt reset)).b, ?_, c3, c4⟩
+  · rw [g3, c2]
+    cases reset <;> rfl
+  · have := congrArg BSt.state ag.2.1
+    exact this.symm
